@@ -87,8 +87,9 @@ def _mk_bprime(L):
         ctx.require(q2n < 0.0)
         Bn = bw.Bprime_q2(L, q2n, q0 * q0, d)
         rn = theta2(tf, L, (q0 * d) * (q0 * d)) / theta2(tf, L, q2n * d * d)
-        ctx.eq("Bprime_q2.below_threshold", Bn * Bn, tf.where(rn > 0.0, rn, 1.0),
-               clause="for q^2 < 0: Bprime_q2^2 == max-guarded ratio and is finite (the polynomial |theta_L|^2 has no zero at z = q^2 d^2)")
+        ctx.eq("Bprime_q2.below_threshold", Bn * Bn, tf.where(rn > 0.0, rn, 1.0), skip_def=True,
+               clause="for q^2 < 0: Bprime_q2^2 == max-guarded ratio wherever the denominator polynomial is non-zero "
+                      "(whether it has a zero for q^2 < 0 is decided exactly by breit_wigner.Bprime_q2/poles_below_threshold)")
         G = bw.Gamma(m, g0, q, q0, L, m0, d)
         ctx.eq("Gamma", G, g0 * (q / q0) ** (2 * L + 1) * (m0 / m) * ratio, clause="Gamma(m) == Gamma0 (q/q0)^(2L+1) (m0/m) B_L'^2")
         ctx.eq("Gamma.at_m0", bw.Gamma(m0, g0, q0, q0, L, m0, d), g0, clause="Gamma(m0) == Gamma0 (q = q0 at m = m0)")
@@ -145,3 +146,30 @@ for _L in range(0, 9):
           ["breit_wigner:Bprime_polynomial", "breit_wigner:Bprime", "breit_wigner:Bprime_q2", "breit_wigner:Gamma", "breit_wigner:Bprime_num"], cost=1 + _L)(_mk_bprime(_L))
     group(["C15"], "breit_wigner.BWR/L=%d" % _L,
           ["breit_wigner:BWR", "breit_wigner:BWR2", "breit_wigner:Gamma2"], cost=2 + _L)(_mk_bwr(_L))
+
+
+@group(["C15"], "breit_wigner.Bprime_q2/poles_below_threshold", ["breit_wigner:get_bprime_coeff", "breit_wigner:Bprime_polynomial", "breit_wigner:Bprime_q2"],
+       env="shim", kind="G", cost=1,
+       bound="L = 0..8: exact real-root count (Sturm sequences, sympy over QQ) of the denominator polynomial the code evaluates, on z = q^2 d^2 < 0",
+       assumes=["the denominator of Bprime_q2 is Bprime_polynomial(L, q^2 d^2) (proved: breit_wigner.Bprime_Gamma/L=*/Bprime_q2.square, polynomial)"])
+def poles_below_threshold(ctx):
+    import sympy
+
+    bw = ctx.mod("breit_wigner")
+    z = sympy.Symbol("z")
+    for L in range(9):
+        coeffs = [sympy.Rational(int(c)) for c in bw.get_bprime_coeff(L)]  # highest power first (exact integers: bprime_coeff/exact)
+        poly = sympy.Poly(sum(c * z ** (len(coeffs) - 1 - i) for i, c in enumerate(coeffs)), z, domain="QQ")
+        n = poly.count_roots(-sympy.oo, 0)
+        wit = None
+        if n:
+            iv = [(a, b) for (a, b), mult in poly.intervals() if b <= 0][:1]
+            (a, b) = iv[0]
+            mid = (a + b) / 2
+            wit = {"L": L, "denominator_polynomial_in_z": str(poly.as_expr()), "real_roots_with_z<0": int(n),
+                   "isolating_interval_for_z=q2*d^2": [str(a), str(b)], "example": "d = 1, q2 in that interval: |Bprime_q2| is unbounded",
+                   "value_at_interval_midpoint": str(poly.eval(mid))}
+        ctx.count(key=L, sample={"L": L, "roots_below_zero": int(n)})
+        ctx.check("pole_free/L=%d" % L, n == 0,
+                  clause="the denominator |theta_L(i sqrt z)|^2 of Bprime_q2 has no real zero for z = q^2 d^2 < 0, so the q^2-based barrier factor is finite below threshold (L=%d)" % L,
+                  detail="%d real zero(s) at negative z" % n, witness=wit)
